@@ -13,16 +13,16 @@ TRUSTED = [
 ]
 
 
-def corr_with_canon(ctx, exe, label="corr", timeout=3000):
+def corr_with_canon(ctx, exe, label="corr", timeout=3000, mode="corr", env=None):
     """Like Ctx.stage_correspondence, with one extra step: double tokens in the model's answers
     (`t<hex>`) are converted to bit patterns by the real readValueToken<double> (harness `canon`)."""
     outdir = os.path.join(ctx.work, label)
     os.makedirs(outdir, exist_ok=True)
-    rc, out, dt = vlib.run([exe, "corr", str(ctx.seed), ctx.tier, outdir], timeout=timeout)
+    rc, out, dt = vlib.run([exe, mode, str(ctx.seed), ctx.tier, outdir], timeout=timeout, env=env)
     if rc != 0:
-        ctx.tie_broken("harness", f"deck corr exited {rc}: {out[-2000:]}")
+        ctx.tie_broken("harness", f"deck {mode} exited {rc}: {out[-2000:]}")
         ctx.violation(f"harness-crash.{label}", f"harness aborted (exit {rc}) — a signal in the real code is a result: {out[-800:]}",
-                      {"cmd": [exe, "corr", str(ctx.seed), ctx.tier], "output": out[-4000:]})
+                      {"cmd": [exe, mode, str(ctx.seed), ctx.tier], "output": out[-4000:]})
         return False
     ops, impl, model_raw, model = (os.path.join(outdir, x) for x in ("ops.txt", "impl.txt", "model.raw.txt", "model.txt"))
     rc, err = vlib.run_driver(ops, model_raw)
